@@ -4,10 +4,12 @@
    /repo/src/tally/report.py and analyzer.py on every run (Gen/C12MerchantId.v, Gen/C12Embed.v).
    Texts are lists of code points; money is exact integer ticks.
 
-   The unchanged code does not satisfy the property at full strength.  For each broken part the
-   full statement is a [Definition …_statement], refuted by a witness, and the strongest guarded
-   version that does hold is proved as […_partial]; the witnesses are replayed on the real code
-   by harness/c12.py (known findings C12/...). *)
+   Status after the adopted fixes (data inserted last; '<' written as \u003c in the embedded JSON;
+   gross_spending defined in export_markdown): the extraction and placeholder statements hold at
+   full strength, for every data text.  For the parts the code still does not satisfy (derived ids
+   not injective, export_json's recomputation) the full statement is a [Definition …_statement],
+   refuted by a witness, and the strongest guarded version is proved as […_partial]; the witnesses
+   are replayed on the real code by harness/c12.py (known findings C12/...). *)
 From Coq Require Import String List Bool NArith ZArith Permutation.
 From Tally Require Import C12.TextLib Gen.C12MerchantId Gen.C12Embed C12.Model C12.Proofs.
 Import ListNotations.
@@ -17,7 +19,7 @@ Open Scope N_scope.
 Definition w_tpl : text := cps "<!DOCTYPE html><html><head><style>/* CSS_PLACEHOLDER */</style></head><body><!-- deps --><script src=""v.js""></script><script>/* DATA_PLACEHOLDER */</script><script>/* JS_PLACEHOLDER */</script></body></html>".
 Definition w_css : text := cps "b{c:d}".
 Definition w_js : text := cps "app();".
-Lemma w_tpl_ok : tpl_ok w_tpl w_css = true.
+Lemma w_tpl_ok : tpl_ok w_tpl w_css w_js = true.
 Proof. vm_compute. reflexivity. Qed.
 
 (* ===================================================================================== *)
@@ -49,59 +51,67 @@ Proof. vm_compute. reflexivity. Qed.
 (* ===================================================================================== *)
 (* the data embedded in the HTML report comes back unchanged                              *)
 (* ===================================================================================== *)
-Definition c12_script_extract_statement : Prop :=
-  forall tpl css js j : text, tpl_ok tpl css = true -> extract_script (embed tpl css js j) = Some j.
+(* Whatever the JSON text j contains — "</script>", "<!--", the placeholder texts, anything — parsing the
+   written document gives back exactly the escaped JSON text that was put in … *)
+Theorem c12_script_extract :
+  forall tpl css js j : text, tpl_ok tpl css js = true ->
+    extract_script (embed tpl css js j) = Some (esc_lt j).
+Proof. intros tpl css js j Hok. apply extract_of_shape, embed_shape, Hok. Qed.
+Print Assumptions c12_script_extract.
 
-(* json.dumps does not escape '<' or '/': a description "</script>" ends the data element *)
-Theorem c12_script_extract_refuted : ~ c12_script_extract_statement.
-Proof.
-  intros H. specialize (H w_tpl w_css w_js (encode (cps "</script>")) w_tpl_ok).
-  vm_compute in H. discriminate.
-Qed.
-Print Assumptions c12_script_extract_refuted.
+(* … which contains no '<' at all (so neither "</script" nor "<!--" nor "<script": the script-data
+   escaped states of the HTML grammar cannot be entered from inside the data) … *)
+Theorem c12_escaped_data_has_no_lt :
+  forall j : text, forallb (fun x => negb (lowc x =? 60)) (esc_lt j) = true /\ no_script_close (esc_lt j) = true.
+Proof. intros j. split; [apply esc_lt_no_lt|]. unfold no_script_close. rewrite esc_lt_no_close. reflexivity. Qed.
+Print Assumptions c12_escaped_data_has_no_lt.
 
-Theorem c12_script_extract_partial :
-  forall tpl css js j : text,
-    tpl_ok tpl css = true -> no_script_close j = true -> no_js_placeholder j = true ->
-    extract_script (embed tpl css js j) = Some j.
-Proof.
-  intros tpl css js j Hok Hc Hj. apply (extract_of_shape js j); [apply embed_shape; assumption|exact Hc].
-Qed.
-Print Assumptions c12_script_extract_partial.
+(* … and JSON-decodes to the same strings: json.loads(json.dumps(s).replace('<', '\u003c')) == s *)
+Theorem c12_json_embedded_roundtrip :
+  forall s : text, forallb is_scalar s = true -> decode (esc_lt (encode s)) = Some s.
+Proof. exact json_escaped_roundtrip. Qed.
+Print Assumptions c12_json_embedded_roundtrip.
 
-(* the placeholder texts are inert inside the data *)
-Definition c12_placeholders_inert_statement : Prop :=
-  forall tpl css js j : text, tpl_ok tpl css = true -> occurs idc (data_script j) (embed tpl css js j) = true.
+(* hence, for string data d: extract, then decode = d *)
+Theorem c12_script_extract_decode :
+  forall tpl css js d, tpl_ok tpl css js = true -> forallb is_scalar d = true ->
+    match extract_script (embed tpl css js (encode d)) with Some t => decode t | None => None end = Some d.
+Proof. intros tpl css js d Hok Hd. rewrite (c12_script_extract _ _ _ _ Hok). apply json_escaped_roundtrip, Hd. Qed.
+Print Assumptions c12_script_extract_decode.
 
-(* the JS placeholder is replaced after the data went in: a description containing it is overwritten *)
-Theorem c12_placeholders_inert_refuted : ~ c12_placeholders_inert_statement.
-Proof.
-  intros H. specialize (H w_tpl w_css w_js (encode (cps "x /* JS_PLACEHOLDER */ y")) w_tpl_ok).
-  vm_compute in H. discriminate.
-Qed.
-Print Assumptions c12_placeholders_inert_refuted.
+(* tie of the hand model of the escaping to the translated replace chain *)
+Theorem c12_escape_is_replace :
+  forall j, esc_lt j = fold_left (fun t st => repl (fst st) (snd st) t) Emb.data_escape_steps j.
+Proof. intros j. apply esc_lt_is_repl. Qed.
+Print Assumptions c12_escape_is_replace.
 
-(* the CSS and DATA placeholder texts are inert (replaced before / not rescanned): only the JS one is excluded *)
-Theorem c12_placeholders_inert_partial :
-  forall tpl css js j : text,
-    tpl_ok tpl css = true -> no_js_placeholder j = true ->
+(* the placeholder texts are inert inside the data: the data script is in the document verbatim *)
+Theorem c12_placeholders_inert :
+  forall tpl css js j : text, tpl_ok tpl css js = true ->
     occurs idc (data_script j) (embed tpl css js j) = true.
 Proof.
-  intros tpl css js j Hok Hj. destruct (embed_shape tpl css js j Hok Hj) as [X Y1 Y2 found Hdoc _ _ _].
+  intros tpl css js j Hok. destruct (embed_shape tpl css js j Hok) as [X Y found Hdoc _ _ _].
   rewrite Hdoc. apply occurs_mid.
 Qed.
-Print Assumptions c12_placeholders_inert_partial.
+Print Assumptions c12_placeholders_inert.
 
-(* non-vacuity: adversarial data that satisfies both guards — quotes, backslashes, '<', "</b>",
-   non-ASCII, the CSS and DATA placeholder texts — is extracted intact from the witness template *)
+(* non-vacuity: adversarial data — "</script>", "</SCRIPT >", "<!--<script>", all three placeholder texts,
+   quotes, backslashes, non-ASCII — is extracted and decoded intact from the witness template *)
 Example c12_extract_example :
-  let j := encode (cps "Caf\ ""q"" </b> <script> /* CSS_PLACEHOLDER */ /* DATA_PLACEHOLDER */" ++ [233; 128512]) in
-  no_script_close j = true /\ no_js_placeholder j = true /\
-  extract_script (embed w_tpl w_css w_js j) = Some j /\
-  (* replacing in another order would not be the same function: with the data inserted first, a
-     CSS placeholder inside it would be overwritten *)
-  occurs idc (data_script j) (repl CSS_PH w_css (repl DATA_PH (data_script j) w_tpl)) = false.
+  let d := cps "Caf\ ""q"" </script></SCRIPT ><!--<script> /* CSS_PLACEHOLDER */ /* DATA_PLACEHOLDER */ /* JS_PLACEHOLDER */" ++ [233; 128512] in
+  let j := encode d in
+  no_script_close j = false /\ no_js_placeholder j = false /\
+  extract_script (embed w_tpl w_css w_js j) = Some (esc_lt j) /\ decode (esc_lt j) = Some d.
 Proof. vm_compute. repeat split; reflexivity. Qed.
+
+(* HISTORY — the pre-fix variant of report.py (data inserted before the JS placeholder was replaced, '<' not
+   escaped) did not have these properties; a tree that regresses to it fails the ties below (c12_embed_tie)
+   and the direct oracle (signatures C12/script-end-tag-in-data, C12/placeholder-in-data) *)
+Example c12_prefix_variant_history :
+  extract_script (embed_prefix_variant w_tpl w_css w_js (encode (cps "</script>"))) = None /\
+  occurs idc (Emb.data_prefix ++ encode (cps "x /* JS_PLACEHOLDER */ y") ++ Emb.data_suffix)
+         (embed_prefix_variant w_tpl w_css w_js (encode (cps "x /* JS_PLACEHOLDER */ y"))) = false.
+Proof. vm_compute. split; reflexivity. Qed.
 
 (* str.replace model: the fuel is sufficient *)
 Theorem c12_replace_total :
@@ -291,9 +301,10 @@ Example c12_binds_tie :
   forallb (fun f => negb (binds_has Emb.binds_json (fig_key f))) all_figures = true.
 Proof. vm_compute. repeat split; reflexivity. Qed.
 
-(* tie of the embedding model to the source: replacement order and data script framing *)
+(* tie of the embedding model to the source: replacement order (data last), escaping, data script framing *)
 Example c12_embed_tie :
-  map fst Emb.embed_steps = [CSS_PH; DATA_PH; JS_PH] /\
-  map snd Emb.embed_steps = [Emb.SCss; Emb.SData; Emb.SJs] /\
+  map fst Emb.embed_steps = [CSS_PH; JS_PH; DATA_PH] /\
+  map snd Emb.embed_steps = [Emb.SCss; Emb.SJs; Emb.SData] /\
+  Emb.data_escape_steps = [(cps "<", LT_ESC)] /\ LT_ESC = cps "\u003c" /\
   Emb.data_prefix = cps "window.spendingData = " /\ Emb.data_suffix = cps ";".
 Proof. vm_compute. repeat split; reflexivity. Qed.
